@@ -19,7 +19,7 @@ import re
 from pathlib import Path
 
 from .astutil import unparse, walk_local
-from .memo import MemoSite, float_keyed, key_misses, params_of, projected, returns_mutable, sites_of_function
+from .memo import MemoSite, float_keyed, key_misses, params_of, projected, stale_on_ir_object, returns_mutable, sites_of_function
 from .report import Finding, Report
 from .srcindex import AnalysisError, Index
 
@@ -124,6 +124,10 @@ def check(idx: Index, rep: Report, prop: str) -> None:
                     km = key_misses(s)
                     if km:
                         r.fail(inst, Finding(f"{prop}.M1", f.fq, f"cache-key-misses:{','.join(km)}", f"the memo {s.describe()} stores a value computed from {km}, which the key `{unparse(s.key)}` does not mention: a later call with the same key and another {km[0]} gets the value computed for the first one", loc))
+                        continue
+                    so = stale_on_ir_object(s, mi.tree if hasattr(mi, "tree") else None)
+                    if so is not None:
+                        r.fail(inst, Finding(f"{prop}.M1", f.fq, f"cache-on-mutable-ir:{so}", f"the memo {s.describe()} is kept on `{so}` and computed from the state of `{so}` itself; attributes, properties, operands and the contents of an IR object change through its public API without telling this cache, and nothing in the module ever drops the entry: after such a change the value computed for the old state is served", loc))
                         continue
                     pj = projected(s)
                     if pj:
